@@ -502,7 +502,7 @@ struct Tuple {
 }
 use FriReductionStrategy::{ConstantArityBits as Cab, Fixed, MinSize};
 
-/// Parameter tuples for plain FRI. The first eight are the quick tier's.
+/// Parameter tuples for plain FRI. The first nine are the quick tier's.
 fn tuples() -> Vec<Tuple> {
     let t = |rate, cap, strat, q, pow| Tuple { rate, cap, strat, q, pow };
     vec![
@@ -514,6 +514,7 @@ fn tuples() -> Vec<Tuple> {
         t(3, 1, Cab(1, 0), 14, 3),
         t(0, 0, Cab(1, 0), 2, 0),
         t(1, 0, Cab(1, 1), 2, 0),
+        t(1, 2, Fixed(vec![2]), 2, 0), // d=3: 16-point LDE folded by 4 -> 4 leaves = 2^cap: empty path (D8)
         t(1, 0, Fixed(vec![2, 1]), 2, 0),
         t(1, 0, Fixed(vec![1, 2]), 2, 0),
         t(2, 3, Cab(1, 2), 2, 4),
@@ -530,6 +531,7 @@ fn batch_tuples() -> Vec<Tuple> {
         t(2, 0, Fixed(vec![1, 1, 1]), 14, 0),
         t(1, 0, Fixed(vec![2, 1]), 2, 0),
         t(3, 2, Cab(1, 1), 14, 2),
+        t(1, 2, Fixed(vec![2]), 2, 0), // degs [3,1]: first layer has 4 leaves = 2^cap: empty path (D8)
     ]
 }
 fn strat_name(s: &FriReductionStrategy) -> String {
@@ -1306,6 +1308,49 @@ fn unconsulted(run: &Run, ptr: &str) -> bool {
     false
 }
 
+/// Points of the coset opened by query `q` at reduction step `step`, the queried position within
+/// it, and the length of that step's Merkle path (recomputed from the parameters, not the proof).
+fn coset_of_query(run: &Run, q: usize, step: usize) -> (Vec<u64>, usize, usize) {
+    let mut bits = run.degs[0] + run.rprm.rate_bits;
+    let mut idx = run.challenges.fri_query_indices[q];
+    let mut shift = shift_g();
+    for &a in &run.rprm.arities[..step] {
+        idx >>= a;
+        bits -= a;
+        for _ in 0..a {
+            shift = mulm(shift, shift);
+        }
+    }
+    let a = run.rprm.arities[step];
+    let coset = idx >> a;
+    let pts = (0..1usize << a).map(|j| domain_point(shift, bits, (coset << a) | j)).collect();
+    (pts, idx & ((1 << a) - 1), bits - a - run.rprm.cap_height)
+}
+/// Lagrange basis polynomial L_j over `pts` evaluated at x.
+fn ref_lagrange_basis(pts: &[u64], j: usize, x: E) -> Option<E> {
+    let mut num = E1;
+    let mut den = 1u64;
+    for m in 0..pts.len() {
+        if m != j {
+            num = e_mul(num, e_sub(x, e_base(pts[m])));
+            den = mulm(den, subm(pts[j], pts[m]));
+        }
+    }
+    Some(e_mul(num, e_base(invm(den)?)))
+}
+/// steps (index, arity_bits, path length) of a setup's schedule that D8 can act on
+fn d8_steps(d0: usize, rate: usize, cap: usize, arities: &[usize]) -> Vec<(usize, usize, usize)> {
+    let mut bits = d0 + rate;
+    let mut out = Vec::new();
+    for (i, a) in arities.iter().enumerate() {
+        bits -= a;
+        if *a >= 2 {
+            out.push((i, *a, bits - cap));
+        }
+    }
+    out
+}
+
 fn wanted_setup(ctx: &Ctx, key: &str) -> bool {
     match &ctx.filter {
         None => true,
@@ -1526,6 +1571,59 @@ fn deviation_cases(ctx: &Ctx, su: &Setup) {
             Ok(format!("{cls}:{field}:unconsulted:{cls2}"))
         });
     }
+    // ---- D8 (deviation bound 2): fold-preserving edit of one opened coset. Position a gets +1 and
+    // position b is compensated so that the interpolant's value at beta is unchanged; the queried
+    // position is untouched. Fold and final-polynomial checks cannot see it, only the binding of the
+    // coset to the commit-phase cap can — also when that step's Merkle path is empty.
+    for q in 0..run.rprm.queries {
+        for (step, abits, _) in d8_steps(run.degs[0], run.rprm.rate_bits, run.rprm.cap_height, &run.rprm.arities) {
+            let arity = 1usize << abits;
+            let (pts, within, path_len) = coset_of_query(&run, q, step);
+            let others: Vec<usize> = (0..arity).filter(|j| *j != within).collect();
+            let mut pairs = Vec::new();
+            if ctx.tier.thorough() {
+                for &a in &others {
+                    for &b in &others {
+                        if a != b {
+                            pairs.push((a, b));
+                        }
+                    }
+                }
+            } else {
+                pairs.push((others[0], others[1]));
+            }
+            for (a, b) in pairs {
+                let case = format!("{p}d8|{key}|{q}.{step}.{a}.{b}");
+                ctx.case("d8/fold-preserving-edit-accepted", &case, || {
+                    ctx.state(1);
+                    let beta = fe(run.challenges.fri_betas[step]);
+                    let la = ref_lagrange_basis(&pts, a, beta).ok_or("machinery: repeated coset point")?;
+                    let lb = ref_lagrange_basis(&pts, b, beta).ok_or("machinery: repeated coset point")?;
+                    let lbi = match e_inv(lb) {
+                        Some(x) => x,
+                        None => return Ok(format!("{p}D8:skipped:L_b(beta)=0")),
+                    };
+                    let delta_b = e_sub(E0, e_mul(la, lbi)); // -1 * L_a(beta) / L_b(beta)
+                    let mut proof = run.proof.clone();
+                    let old: Vec<E> = proof.query_round_proofs[q].steps[step].evals.iter().map(|e| fe(*e)).collect();
+                    let mut new = old.clone();
+                    new[a] = e_add(new[a], E1);
+                    new[b] = e_add(new[b], delta_b);
+                    if new[a] == old[a] || new[b] == old[b] || ref_lagrange(&pts, &new, beta)? != ref_lagrange(&pts, &old, beta)? {
+                        return Err("machinery: the D8 edit is not fold-preserving".into());
+                    }
+                    proof.query_round_proofs[q].steps[step].evals[a] = ef(new[a]);
+                    proof.query_round_proofs[q].steps[step].evals[b] = ef(new[b]);
+                    let (iv, cls) = compare(ctx, &format!("{p}D8"), &run, &run.rprm, &run.params, &run.open_vals, &run.challenges, &run.caps, &proof)?;
+                    if iv.accepted() {
+                        return Err(format!("fold-preserving edit of the coset of query {q} at step {step} (positions {a},{b}; path length {path_len}) accepted"));
+                    }
+                    ctx.count(&format!("{p}d8_path_len_{}", path_len.min(2)), 1);
+                    Ok(format!("{cls}:arity={arity}:path={}", if path_len >= 2 { ">=2".to_string() } else { path_len.to_string() }))
+                });
+            }
+        }
+    }
     // ---- D6: structural mutations of every array node, fixed challenges
     let mut arrays = Vec::new();
     array_pointers(&val, &mut String::new(), &mut arrays);
@@ -1621,6 +1719,7 @@ fn batch_scens(thorough: bool) -> Vec<BScen> {
         v.push(b(&[3, 1], &[2, 1], 1, 1, 3, 4));
         v.push(b(&[3, 2, 1], &[1, 1, 1], 2, 0, 2, 5));
         v.push(b(&[4, 3, 1], &[1, 1, 2], 1, 1, 2, 4));
+        v.push(b(&[3, 1], &[1, 1], 1, 0, 5, 4));
         return v;
     }
     for degs in [vec![3, 2, 1], vec![3, 2], vec![3, 1], vec![4, 3, 2], vec![4, 3, 1], vec![4, 2], vec![5, 4, 3], vec![2, 1], vec![4, 3, 2, 1]] {
@@ -1650,7 +1749,7 @@ pub fn run(ctx: &Ctx) -> i32 {
 
     // ---- part 2: honest grid
     let max_d = if thorough { 5 } else { 4 };
-    let n_t = if thorough { tuples().len() } else { 8 };
+    let n_t = if thorough { tuples().len() } else { 9 };
     let mut honest: Vec<Scen> = Vec::new();
     for shape in shapes(thorough) {
         for d in 1..=max_d {
@@ -1688,6 +1787,23 @@ pub fn run(ctx: &Ctx) -> i32 {
     dev.extend(batch_dev);
     // heavy setups first so that the pool drains evenly
     dev.sort_by_key(|s| std::cmp::Reverse(s.tuple.q * (s.degs[0] + s.tuple.rate + 2)));
+    // D8 needs, in every tier, plain AND batch setups with a step of arity >= 4 whose Merkle path is
+    // empty (the layer has exactly 2^cap_height leaves), and the "path of length 1" sibling case.
+    if !ctx.replaying() {
+        for batch in [false, true] {
+            for want_len in [0usize, 1] {
+                let found = dev.iter().any(|su| {
+                    su.batch == batch
+                        && run_setup(su, &Mode::Honest)
+                            .map(|r| d8_steps(r.degs[0], r.rprm.rate_bits, r.rprm.cap_height, &r.rprm.arities).iter().any(|x| x.2 == want_len))
+                            .unwrap_or(false)
+                });
+                if !found && !(batch && want_len == 1) {
+                    ctx.machinery_error(format!("no {} deviation setup has an arity>=4 step with Merkle path length {want_len}", if batch { "batch" } else { "plain" }));
+                }
+            }
+        }
+    }
     par_for(dev.len(), |i| deviation_cases(ctx, &dev[i]));
 
     let variant = crate::variant_name();
@@ -1699,6 +1815,7 @@ pub fn run(ctx: &Ctx) -> i32 {
             "F = Goldilocks, D = 2, Poseidon hasher; hash primitives hash_or_noop / two_to_one are trusted (C13)".into(),
             "openings points outside the LDE domain; instance/openings/challenge shapes well-formed (statement side is not mutated structurally)".into(),
             "negative expectations beyond reference agreement: D2/D3 only when queries*rate_bits >= 40, transcript-bound elements only when queries*lde_bits >= 40".into(),
+            "D8 uses deviation bound 2 (two positions of one coset) because every single-position edit is masked by the fold / final-polynomial check".into(),
             "a surplus commit-phase cap ignored under fixed challenges is classified (shape laxity, C18), not failed; panics of the verifier on malformed shapes are tallied as panic:<where> (C18)".into(),
             format!("build variant {variant}; blinding salts from the seeded seam (set_seed = case index)"),
         ],
@@ -1708,7 +1825,7 @@ pub fn run(ctx: &Ctx) -> i32 {
                 "param_domain": "degree_bits 0..=20 x rate_bits 0..=5 x cap_height 0..=8 x queries {1,2,8,28,84} x {Fixed over {1..4}^(<=4), ConstantArityBits(1..=5,0..=6), MinSize(None|1..=5)}",
                 "honest_grid": format!("{} shapes x degree_bits 1..={} x 5 opening structures x {} tuples x 6 families + {} batch setups", shapes(thorough).len(), max_d, n_t, batch_setups.len()),
                 "deviation_setups": dev.len(),
-                "deviations": "D1 D1f CAPf D2 D3 D4 D4f D5(all leaves,+1) D6(all arrays x drop/empty/dup) D7(batch: D1 D1f CAPf D4 D4f D5 D6)",
+                "deviations": "D1 D1f CAPf D2 D3 D4 D4f D5(all leaves,+1) D6(all arrays x drop/empty/dup) D8(fold-preserving 2-position coset edit, every query x every step of arity>=4; quick one (a,b), thorough all ordered pairs) D7(batch: D1 D1f CAPf D4 D4f D5 D6 D8)",
             },
             "variant": variant,
         }),
